@@ -11,7 +11,7 @@
 //!   tables ::= (tables (type (row <tag>*)*) (fparams (row <tag>*)*) (bparams (row <tag>*)*))
 //!              -- compute_type_compatibility / compute_param_compatibility, rows in index order,
 //!              -- tags sorted: i b r (t n) (f n) (bi n) (p n) (res n)
-//!   struct ::= (struct (tags "<key>"*) (pat "<pattern key>" "<accepted tag key>"*)*)
+//!   struct ::= (struct (tags "<key>"*)   -- a key starts with '!' when no tag of that image has a type entry (pat "<pattern key>" "<accepted tag key>"*)*)
 //!              -- the type table on structural images (ids erased), for the cross-configuration
 //!              -- invariance check: one `pat` per IsType operand
 use qvh::sexp::{self, Sexp};
@@ -200,6 +200,31 @@ fn tag_key(bc: &Bytecode, t: &ConcreteType) -> String {
     }
 }
 
+/// does the tag have a type entry (TypeIndex lookup succeeds)? Without one no row can contain it.
+fn has_type_entry(bc: &Bytecode, t: &ConcreteType) -> bool {
+    match t {
+        ConcreteType::Integer | ConcreteType::Binary | ConcreteType::Reference | ConcreteType::Function(_) => true,
+        ConcreteType::Tuple(n) => bc.types.iter().any(|ty| matches!(ty, Type::Tuple(id) if id == n)),
+        ConcreteType::Builtin(n) => bc.builtins.get(*n).is_some_and(|b| {
+            bc.types.iter().any(|ty| {
+                matches!(ty, Type::Callable { parameter, result, receive }
+                    if *parameter == b.param_type && *result == b.result_type
+                        && bc.types.get(*receive).is_some_and(|r| r.is_never()))
+            })
+        }),
+        ConcreteType::Process(n) => bc.functions.get(*n).is_some_and(|f| {
+            let (s, r) = match bc.types.get(f.type_id) {
+                Some(Type::Callable { result, receive, .. }) => (Some(*receive), Some(*result)),
+                _ => (None, None),
+            };
+            bc.types.iter().any(|ty| matches!(ty, Type::Process { send, receive } if *send == s && *receive == r))
+        }),
+        ConcreteType::Resource(n) => bc.resources.get(*n).is_some_and(|name| {
+            bc.types.iter().any(|ty| matches!(ty, Type::Resource(x) if x == name))
+        }),
+    }
+}
+
 fn dump_cfg(name: &str, bc: &Bytecode) -> String {
     let (mut names, mut labels, mut res, mut vars) = (Interner::default(), Interner::default(), Interner::default(), Interner::default());
     let tuples: Vec<String> = bc
@@ -235,23 +260,35 @@ fn dump_cfg(name: &str, bc: &Bytecode) -> String {
     let tt = compute_type_compatibility(&input);
     let (fp, bp) = compute_param_compatibility(&input);
     // structural image
-    let mut all_tags: BTreeSet<String> = BTreeSet::new();
+    // a key is listed plain when SOME tag with that structural image has a type entry, with a
+    // leading '!' when none has (then no row can contain it in this configuration)
+    let mut with_entry: BTreeSet<String> = BTreeSet::new();
+    let mut every: BTreeSet<String> = BTreeSet::new();
+    let mut note = |t: ConcreteType| {
+        let k = tag_key(bc, &t);
+        if has_type_entry(bc, &t) {
+            with_entry.insert(k.clone());
+        }
+        every.insert(k);
+    };
     for t in [ConcreteType::Integer, ConcreteType::Binary, ConcreteType::Reference] {
-        all_tags.insert(tag_key(bc, &t));
+        note(t);
     }
     for i in 0..bc.tuples.len() {
-        all_tags.insert(tag_key(bc, &ConcreteType::Tuple(i)));
+        note(ConcreteType::Tuple(i));
     }
     for i in 0..bc.functions.len() {
-        all_tags.insert(tag_key(bc, &ConcreteType::Function(i)));
-        all_tags.insert(tag_key(bc, &ConcreteType::Process(i)));
+        note(ConcreteType::Function(i));
+        note(ConcreteType::Process(i));
     }
     for i in 0..bc.builtins.len() {
-        all_tags.insert(tag_key(bc, &ConcreteType::Builtin(i)));
+        note(ConcreteType::Builtin(i));
     }
     for i in 0..bc.resources.len() {
-        all_tags.insert(tag_key(bc, &ConcreteType::Resource(i)));
+        note(ConcreteType::Resource(i));
     }
+    let all_tags: BTreeSet<String> =
+        every.iter().map(|k| if with_entry.contains(k) { k.clone() } else { format!("!{}", k) }).collect();
     let mut pats: BTreeSet<usize> = BTreeSet::new();
     for f in &bc.functions {
         for i in &f.instructions {
